@@ -101,7 +101,19 @@ func TestWorker(t *testing.T) {
 	if s := os.Getenv("VERIF_SAMPLE_EVERY"); s != "" {
 		sampleEvery, _ = strconv.Atoi(s)
 	}
+	// a worker retires itself after a number of runs or when its memory has grown (every run leaves the frozen
+	// goroutines of its bubble behind): the driver starts a fresh process at the index it names
+	maxRuns := 1500
+	if s := os.Getenv("VERIF_MAX_RUNS"); s != "" {
+		maxRuns, _ = strconv.Atoi(s)
+	}
+	done := 0
 	for idx := from; idx < to; idx += stride {
+		if os.Getenv("VERIF_EMIT") == "" && done > 0 && (done >= maxRuns || done%20 == 0 && rssMB() > 1400) {
+			emit(map[string]interface{}{"t": "recycle", "next": idx})
+			return
+		}
+		done++
 		seed := deriveSeed(base, prop, idx)
 		sc := eng.Gen(seed, idx, tier)
 		if sc == nil {
@@ -247,4 +259,18 @@ func attachRaces(res *Result) {
 			res.probe("other-races", 1)
 		}
 	}
+}
+
+// rssMB reads the resident set size of this process.
+func rssMB() int {
+	b, err := os.ReadFile("/proc/self/statm")
+	if err != nil {
+		return 0
+	}
+	f := strings.Fields(string(b))
+	if len(f) < 2 {
+		return 0
+	}
+	pages, _ := strconv.Atoi(f[1])
+	return pages * os.Getpagesize() >> 20
 }
